@@ -1,11 +1,12 @@
 """C11 — a crash while patching never damages what was committed (P-tier: statement-boundary effect order)."""
-from . import hashing, record
+from . import hashing, manifest, record
 
 
 def build(reg):
     record.add_record_bindings(reg)
     record.add_open_bindings(reg)
     specs = record.add_lifecycle(reg)
+    specs = specs + [x for x in manifest.add_manifest(reg) if x.qual in ("IH5MFRecord.create_stub", "IH5MFRecord.commit_patch")]  # entry points that create / finish containers next to committed ones
     return {
         "verify": specs,
         "lemmas": [],
